@@ -20,13 +20,10 @@ FRAMES_EXC = {'au_write_header': 'AU stores a byte length only', 'wav_write_head
 FILELEN_EXC = {'mat5_write_header': 'uses psf_ftell after seeking to the end'}
 
 
-def run(ctx):
-    prog = ctx.prog
+def close_hdr(ctx, prog):
     E = prog.enums
     eff = Effects(prog)
     wh = {f.name: f for f in prog.slot_fns('write_header')}
-    ctx.require(len(wh) >= 19, 'write_header slot has %d functions' % len(wh))
-
     ctx.rule('CLOSE-HDR', 'every function in the container_close slot calls a write_header function (directly or through psf->write_header) with calc_length = SF_TRUE on the path taken in '
              'SFM_WRITE mode, and any *_write_tailer call precedes it', floor=15)
     pe = PEval(prog, sticky=('file.mode',), effects=eff)
@@ -48,6 +45,17 @@ def run(ctx):
         ctx.ob('CLOSE-HDR', f.name, ok, f.loc(calls[0]) if calls else f.loc(f.body), 'header rewrite %s' % (
             'with SF_TRUE, reached in write mode%s' % (', after the tailer' if tail else '') if ok else
             ('MISSING' if not calls else 'not with SF_TRUE' if not okarg else 'not reached in write mode' if not feasible else 'happens BEFORE the tailer is written')), None)
+
+
+
+def run(ctx):
+    prog = ctx.prog
+    E = prog.enums
+    eff = Effects(prog)
+    wh = {f.name: f for f in prog.slot_fns('write_header')}
+    ctx.require(len(wh) >= 19, 'write_header slot has %d functions' % len(wh))
+
+    close_hdr(ctx, prog)
 
     ctx.rule('WH-CALC', 'in each write_header: under `if (calc_length)` filelength = psf_get_filelen (psf); datalength = filelength - dataoffset; if dataend, datalength -= filelength - dataend; '
              'sf.frames = datalength / (bytewidth * channels)  (reasoned exceptions frozen per function)', floor=14)
